@@ -1,8 +1,11 @@
 from vlib.core import Check, Family
+from vlib.purity import purity_step, PURITY_RULES   # FindRoot / Piecewise keep nothing in package-level variables (nested or concurrent solves)
+from vlib.genidx import genidx_step   # tie A: the index / hyperslab / util-fn functions regenerated as Lean and proved equal to the hand-written model (gen_eq_*, OW/Props/GenTieIndex.lean; table TIES in vlib/genidx.py)
 
 CHECK = Check(
     "C18",
     props_modules=["OW.Props.C18"],
+    pre_steps=[genidx_step, purity_step(PURITY_RULES, "C18")],
     families=[
         # arithmetic and comparisons only on both sides (the test functions come from an expression language evaluated
         # identically in Go and Lean): bit-exact
